@@ -1,5 +1,6 @@
 import RsslVerif.Lemmas.CondChain
 import RsslVerif.Lemmas.CondParse
+import RsslVerif.Lemmas.CondFile
 /-!
 # C11 — conditional compilation selects exactly the branches C semantics select
 
@@ -407,5 +408,54 @@ example :
   simp only [ItemsWF, ItemWF, ChainWF, and_true, true_and]
   exact ⟨fun m hm => literalMacros_define m "A" _ 5 rfl hm,
          total_under_literal_macros _ (by decide)⟩
+
+/-! ## 5. include boundaries: one condition chain for all files
+
+`Model.CondFile` is the composed token-level model (`preprocess_command` + the token loop of
+`preprocess_included_file` + `FileLoader` + the C12 macro engine); it is compared with the real
+`rssl_preprocess::preprocess` on every run (`C11.raw`).  In C every file's conditional directives must balance
+by themselves.  The code has no such rule, and the model proves what happens instead. -/
+
+section IncludeBoundary
+open RsslVerif.Model.CondFile RsslVerif.Model.Macro RsslVerif.Lemmas.CondFile
+
+/-- **The chain is shared across `#include` (for every includer state).**  Whatever handler, fuel and state:
+    including a file whose whole text is `#endif` pops the level the *includer* opened; a file `#else` switches
+    the includer's if-section; a file `#ifdef X` returns with its level still open — in all three cases without
+    an error, the stack simply handed back.  So an `#if` *can* be closed by another file's `#endif`. -/
+theorem include_shares_chain (h : Handler) (fuel : Nat) (name : String) (st : FState)
+    (ho : st.once.contains name = false) :
+    (∀ c ch, h name = some hdrEndif → st.chain = c :: ch →
+      includeFile h (fuel + 1) name st = .ok { st with chain := ch }) ∧
+    (∀ c ch, h name = some hdrElse → st.chain = c :: ch →
+      includeFile h (fuel + 1) name st = .ok { st with chain := c.switch elseSwitchArg :: ch }) ∧
+    (∀ x, h name = some (hdrIfdef x) →
+      includeFile h (fuel + 1) name st = .ok { st with chain :=
+        (if RsslVerif.Model.CondFile.active st.chain then pushState (st.macros.any (fun m => m.name == x))
+         else .DisabledInner) :: st.chain }) :=
+  ⟨fun c ch hf hc => include_endif h fuel name st c ch hf ho hc,
+   fun c ch hf hc => include_else h fuel name st c ch hf ho hc,
+   fun x hf => include_ifdef h fuel name x st hf ho⟩
+
+/-- **Negation witness (end to end).**  `wHdrA` = `#ifndef A⏎2⏎` opens an if-section and never closes it,
+    `wMainA` = `#include "h.h"⏎1⏎#endif⏎` closes it: neither file is balanced (C rejects both: "unterminated
+    #ifndef", "#endif without #if"), yet the whole run is accepted and yields `2 1`.  Replayed on the real
+    preprocessor by `corpus/C11.txt` (known finding `unterminated-in-include accepted`). -/
+theorem if_closed_by_includers_endif_accepted :
+    fileBalanced wHdrA = false ∧ fileBalanced wMainA = false ∧
+    preprocessAll (fun n => if n = "main.rssl" then some wMainA else if n = "h.h" then some wHdrA else none)
+      [] "main.rssl" = .ok [⟨.int "2", true⟩, ⟨.endline, true⟩, ⟨.int "1", true⟩, ⟨.endline, true⟩] :=
+  RsslVerif.Lemmas.CondFile.witnessA
+
+/-- **Negation witness.**  `hdrElse` = `#else⏎` has an `#else` without an `#if` (C rejects); included from
+    inside the selected group of `wMainB` = `#ifndef A⏎1⏎#include "h.h"⏎2⏎#endif⏎` it ends that group: `2` is
+    silently dropped.  Known finding `unmatched-in-include accepted`. -/
+theorem else_of_other_file_accepted :
+    fileBalanced hdrElse = false ∧
+    preprocessAll (fun n => if n = "main.rssl" then some wMainB else if n = "h.h" then some hdrElse else none)
+      [] "main.rssl" = .ok [⟨.int "1", true⟩, ⟨.endline, true⟩] :=
+  RsslVerif.Lemmas.CondFile.witnessB
+
+end IncludeBoundary
 
 end RsslVerif.Thm.C11
